@@ -25,7 +25,53 @@ ASPECTS = ('iter', 'len', 'copy', 'partial', 'scramble')
 
 
 def shards(tier, seed):
-    return progshards.shards(tier, seed, PROPERTY)
+    out = progshards.shards(tier, seed, PROPERTY)
+    for j in range(4):
+        out.append({'name': f'slow{j}', 'what': 'slow', 'part': j})
+    return out
+
+
+SLOW_PROGRAMS = [
+    [('prefetch1', 1)], [('map', 'f'), ('prefetch1', 2)],
+    [('map', 'f'), ('batch', 2, False), ('prefetch1', 1)],
+    [('filter', 3), ('prefetch1', 2)],
+    [('map', 'f'), ('prefetcht', 2, 2)], [('parmap', 'f', 2, 2)],
+    [('map', 'f'), ('prefetcht', 2, 3), ('prefetch1', 1)],
+    [('prefetch1', 1), ('map', 'g'), ('prefetch1', 1)],
+]
+
+
+def run_slow(spec, res):
+    """A consumer that stalls for more than a second between examples (a
+    training step, a checkpoint): iteration must still equal the reference."""
+    import time
+    from .. import programs
+    from ..common import import_lazy_dataset
+    ld = import_lazy_dataset()
+    for i, ops in enumerate(SLOW_PROGRAMS):
+        if i % 4 != spec['part']:
+            continue
+        for src in (('list', 8, 'pickle'), ('dict', 6, 'pickle')):
+            prog = {'src': src, 'ops': list(ops)}
+            status, m = programs.classify(prog)
+            if status != 'ok':
+                continue
+            for stall_after in ((1,), (0, 3)):
+                ds = programs.build(ld, prog)
+                got = []
+                for j, x in enumerate(ds):
+                    got.append(x)
+                    if j in stall_after:
+                        time.sleep(1.3)
+                res.case(('slow', repr(prog), stall_after), True)
+                res.count('slow_consumer_iterations')
+                if got != m.values:
+                    res.violation('iteration-differs-from-reference',
+                                  {'prog': prog, 'consumer_stalls_after': list(stall_after),
+                                   'stall_seconds': 1.3},
+                                  {'got': got, 'want': m.values},
+                                  sig={'last_op': progengine.last_op(prog),
+                                       'consumer': 'slow'})
 
 
 def nontrivial(prog, status, m, o):
@@ -33,6 +79,8 @@ def nontrivial(prog, status, m, o):
 
 
 def run_shard(spec, res):
+    if spec['what'] == 'slow':
+        return run_slow(spec, res)
     progshards.run(spec, res, PROPERTY, ASPECTS, progengine.judge_c01, nontrivial)
 
 
@@ -48,6 +96,9 @@ def replay(case, res):
     from ..common import import_lazy_dataset
     ld = import_lazy_dataset()
     prog = fix_prog(case['prog'])
+    if 'consumer_stalls_after' in case:
+        return run_slow({'part': 0}, res) or run_slow({'part': 1}, res) or \
+            run_slow({'part': 2}, res) or run_slow({'part': 3}, res)
     status, m, o = progengine.run_case(ld, prog, ASPECTS)
     if status not in ('skip', 'watchdog'):
         progengine.judge_c01(prog, status, m, o, res)
